@@ -4,6 +4,7 @@ import (
 	"fmt"
 	"os"
 	"sort"
+	"strings"
 	"time"
 
 	"github.com/mimiro-io/datahub/internal/server"
@@ -32,6 +33,9 @@ type ConcRun struct {
 	commits  int
 	commitOf []*concOp // in commit order
 	tainted  map[string]bool
+	compactStart   int // number of commits before the compaction task took its snapshot
+	compactStarted bool
+	dupLatest      map[string]bool // entities whose newest version (before the concurrent phase) duplicates its predecessor
 	tokens   map[int]uint64      // per reader task: continuation token
 	readers  map[int]*FeedReader // post-hoc verification state
 }
@@ -133,6 +137,11 @@ func (r *ConcRun) execOp(t *Task, co *concOp) {
 		}
 		co.readRes = rt
 		r.Stats["reader_pages"]++
+	case "compact":
+		r.compactStart = r.commits
+		r.compactStarted = true
+		co.err = h.Compact(op.DS, op.N)
+		r.Stats["compactions"]++
 	case "createDataset":
 		_, co.err = h.Dsm.CreateDataset(op.DS, nil)
 	case "deleteDataset":
@@ -176,6 +185,35 @@ func RunConcScenario(sc *Scenario) (vd *Verdict) {
 			return
 		}
 		m.Create(d)
+	}
+	// sequential prefix (history before the concurrent phase)
+	for i := range sc.Ops {
+		op := &sc.Ops[i]
+		time.Sleep(time.Nanosecond)
+		switch op.K {
+		case "batch":
+			if err := h.Dataset(op.DS).StoreEntities(h.Entities(op.Ents)); err != nil {
+				vd.Verdict, vd.Message = "error", "prefix batch: "+err.Error()
+				return
+			}
+			m.Batch(op.DS, op.Ents)
+		case "dup":
+			if ok, err := h.Dataset(op.DS).VerifInjectDuplicate(h.curie(op.S), time.Now().UnixNano()); err == nil && ok {
+				if cur := m.DS[op.DS].LatestOf(markerToFull(op.S)); cur != nil {
+					m.DS[op.DS].ForceAppend(cur)
+				}
+			}
+		}
+	}
+	time.Sleep(time.Nanosecond)
+	r.dupLatest = map[string]bool{}
+	for _, d := range m.DS {
+		rem := d.removable()
+		for id, i := range d.Latest {
+			if rem[i] {
+				r.dupLatest[d.Name+"|"+id] = true
+			}
+		}
 	}
 	s := NewSched()
 	r.S = s
@@ -334,6 +372,50 @@ func RunConcScenario(sc *Scenario) (vd *Verdict) {
 			continue
 		}
 		pool, _ := collectNames(sc)
+		if sc.Property == "C12" {
+			for _, cos := range r.ops {
+				for _, co := range cos {
+					if co.op.K == "compact" && co.err != nil {
+						fail(viol("C12", "compaction", "compact-error", "compaction failed while a writer was active: %v", co.err))
+						return
+					}
+				}
+			}
+			// KF-C12-1: the compactor decided from its snapshot to drop the newest (duplicate) version of an
+			// entity and to point "latest" back at the predecessor, while a writer stored a newer version
+			racePrefix := "racing-writer:"
+			for _, co := range r.commitOf {
+				if !r.compactStarted || co.commitIdx <= r.compactStart || co.op.K != "batch" {
+					continue
+				}
+				for _, e := range co.op.Ents {
+					if r.dupLatest[co.op.DS+"|"+CanonSpec(e).ID] {
+						racePrefix = "racing-writer-vs-latest-rewrite:"
+					}
+				}
+			}
+			relabel := func(v *Violation) { v.Signature = racePrefix + strings.TrimPrefix(v.Signature, "racing-writer:") }
+			_ = relabel
+			if v := CheckCompactedFeed(h, m, name, "C12"); v != nil {
+				v.Signature = racePrefix + v.Signature
+				fail(v)
+				return
+			}
+			if v := CheckLatest(h, m, name, pool, []int{2}); v != nil {
+				v.Property, v.Oracle = "C12", "compaction"
+				v.Signature = racePrefix + "latest-view:" + v.Signature
+				fail(v)
+				return
+			}
+			rv, _ := CheckRelations(h, m, pool, nil, [][]string{nil, {name}}, nil, func(x *Violation) bool { return !IsKnown(x) })
+			if rv != nil {
+				rv.Property, rv.Oracle = "C12", "compaction"
+				rv.Signature = racePrefix + "relations:" + rv.Signature
+				fail(rv)
+				return
+			}
+			continue
+		}
 		if sc.Property == "C05" {
 			if v := CheckLatest(h, m, name, pool, []int{2}); v != nil {
 				v.Oracle, v.Signature = "serial", "final-latest:"+v.Signature
